@@ -1,7 +1,8 @@
 import FormulaicVerif.Model.Nulls
-/-! Reference semantics for C06: which rows the property says must remain, and what a part of the
-output must then look like. Deliberately tiny: positions are filtered with `List.filter`, rows are
-read with `xs[i]?`. -/
+/-! Reference semantics for C06: which rows of an evaluated factor count as null, which rows the
+property says must remain, and what a part of the output must then look like. Deliberately tiny:
+positions are filtered with `List.filter`, rows are read with `xs[i]?`, a value is looked at cell by
+cell. -/
 namespace FormulaicVerif.Spec.Nulls
 open FormulaicVerif.Model.Nulls
 
@@ -13,12 +14,193 @@ def keptPositions (n : Nat) (removed : List Nat) : List Nat :=
 def rowsAt {ρ : Type} (xs : List ρ) (ps : List Nat) : List ρ :=
   ps.filterMap (fun i => xs[i]?)
 
+/-! ## Which rows of a value are null -/
+
+/-- cell `i` of a column exists and is null -/
+def cellNull {ρ : Type} (cells : List (Cell ρ)) (i : Nat) : Bool :=
+  match cells[i]? with
+  | some c => c.null
+  | none => false
+
+/-- row `i` of a table of `n` rows (stored by column) has a null cell -/
+def tableNull {ρ : Type} (n : Nat) (cols : List (List (Cell ρ))) (i : Nat) : Bool :=
+  decide (i < n) && cols.any (fun col => cellNull col i)
+
+mutual
+/-- Row `i` of the evaluated factor contains a null cell: in the column itself, in any column of
+a 2-d array / data frame / sparse matrix, in any member (hidden ones included) of a dict. Constants
+have no rows. -/
+def rowNull {ρ : Type} : Value ρ → Nat → Bool
+  | .pylist cells, i => cellNull cells i
+  | .nwSeries cells, i => cellNull cells i
+  | .series cells, i => cellNull cells i
+  | .array1 cells, i => cellNull cells i
+  | .array2 n cols, i => tableNull n cols i
+  | .frame n cols, i => tableNull n cols i
+  | .sparse _ n cols, i => tableNull n cols i
+  | .dict items, i => rowNullItems items i
+  | .none, _ => false
+  | .scalar _ _, _ => false
+  | .array0 _, _ => false
+  | .arrayN _, _ => false
+  | .other, _ => false
+def rowNullItems {ρ : Type} : List (Bool × Value ρ) → Nat → Bool
+  | [], _ => false
+  | (_, x) :: r, i => rowNull x i || rowNullItems r i
+end
+
+mutual
+/-- `find_nulls` (of the tree under test) has an answer for the value: it contains no constant
+(scalar or 0-d array) that is null, no array of more than two dimensions and no object of an
+unknown type — anywhere, members of dicts included. -/
+def Checkable {ρ : Type} : Value ρ → Prop
+  | .scalar .pyStr _ => True
+  | .scalar .pyNum c => c.null = false
+  | .scalar .npNum c => c.null = false
+  | .array0 c => c.null = false
+  | .arrayN _ => False
+  | .other => False
+  | .dict items => CheckableItems items
+  | .none => True
+  | .pylist _ => True
+  | .nwSeries _ => True
+  | .series _ => True
+  | .array1 _ => True
+  | .array2 _ _ => True
+  | .frame _ _ => True
+  | .sparse _ _ _ => True
+def CheckableItems {ρ : Type} : List (Bool × Value ρ) → Prop
+  | [] => True
+  | (_, x) :: r => Checkable x ∧ CheckableItems r
+end
+
+/-! ## Well-formed evaluated factors -/
+
+/-- a column of `n` cells, or a constant that is not null -/
+def LeafOK {ρ : Type} (n : Nat) : Value ρ → Prop
+  | .pylist cells => cells.length = n
+  | .nwSeries cells => cells.length = n
+  | .series cells => cells.length = n
+  | .array1 cells => cells.length = n
+  | .scalar .pyStr _ => True
+  | .scalar .pyNum c => c.null = false
+  | .scalar .npNum c => c.null = false
+  | _ => False
+
+mutual
+/-- what may sit in a dict: columns of `n` cells, non-null constants, dicts of those -/
+def MemberOK {ρ : Type} (n : Nat) : Value ρ → Prop
+  | .dict items => MembersOK n items
+  | .pylist cells => cells.length = n
+  | .nwSeries cells => cells.length = n
+  | .series cells => cells.length = n
+  | .array1 cells => cells.length = n
+  | .scalar .pyStr _ => True
+  | .scalar .pyNum c => c.null = false
+  | .scalar .npNum c => c.null = false
+  | .none => False
+  | .array0 _ => False
+  | .array2 _ _ => False
+  | .arrayN _ => False
+  | .frame _ _ => False
+  | .sparse _ _ _ => False
+  | .other => False
+def MembersOK {ρ : Type} (n : Nat) : List (Bool × Value ρ) → Prop
+  | [] => True
+  | (_, x) :: r => MemberOK n x ∧ MembersOK n r
+end
+
+/-- an evaluated factor that can be turned into columns of a matrix over `n` rows: a column, a
+non-null constant, a 2-d array or a data frame with `n` rows, a (nested) dict of columns and
+constants, or `None` (which contributes no column) -/
+def ValueOK {ρ : Type} (n : Nat) : Value ρ → Prop
+  | .array2 k cols => k = n ∧ ∀ c ∈ cols, c.length = n
+  | .frame k cols => k = n ∧ ∀ c ∈ cols, c.length = n
+  | .none => True
+  | x => MemberOK n x
+
+/-- … `C()` / `hashed()` are applied to single columns, and a value declared to be of kind
+`constant` is a scalar that is not null -/
+def FactorOK {ρ : Type} (n : Nat) (f : Factor ρ) : Prop :=
+  match f.encoder with
+  | .default => ValueOK n f.value
+  | .constant => ∃ k c, f.value = .scalar k c ∧ LeafOK n (.scalar k c)
+  | _ => ∃ s cells, colCells f.value = some (s, cells) ∧ cells.length = n
+
+/-! ## Positional removal on a value -/
+
+/-- the value has rows, `n` of them: a column of `n` cells, or an array / sparse matrix with
+`shape[0] = n` whose columns all have `n` cells -/
+def HasRows {ρ : Type} (n : Nat) : Value ρ → Prop
+  | .pylist cells => cells.length = n
+  | .nwSeries cells => cells.length = n
+  | .series cells => cells.length = n
+  | .array1 cells => cells.length = n
+  | .array2 k cols => k = n ∧ ∀ c ∈ cols, c.length = n
+  | .arrayN k => k = n
+  | .sparse _ k cols => k = n ∧ ∀ c ∈ cols, c.length = n
+  | _ => False
+
+/-- the value restricted to the rows at positions `K`, in the order of `K`: what a positional
+removal that keeps exactly those rows must return (same type, same columns) -/
+def keepRows {ρ : Type} (K : List Nat) : Value ρ → Value ρ
+  | .pylist cells => .pylist (rowsAt cells K)
+  | .nwSeries cells => .nwSeries (rowsAt cells K)
+  | .series cells => .series (rowsAt cells K)
+  | .array1 cells => .array1 (rowsAt cells K)
+  | .array2 _ cols => .array2 K.length (cols.map (fun c => rowsAt c K))
+  | .arrayN _ => .arrayN K.length
+  | .sparse csc _ cols => .sparse csc K.length (cols.map (fun c => rowsAt c K))
+  | x => x
+
+/-! ## The columns of a value -/
+
+mutual
+/-- the columns of a dict member, in order; hidden members have none -/
+def memberColumns {ρ : Type} : Value ρ → List (ColShape ρ)
+  | .dict items => itemColumns items
+  | .none => [.bad]
+  | .scalar _ c => [.const c]
+  | .pylist cells => [.vec cells]
+  | .nwSeries cells => [.vec cells]
+  | .series cells => [.vec cells]
+  | .array0 _ => [.bad]
+  | .array1 cells => [.vec cells]
+  | .array2 _ _ => [.bad]
+  | .arrayN _ => [.bad]
+  | .frame _ _ => [.bad]
+  | .sparse _ _ _ => [.bad]
+  | .other => [.bad]
+def itemColumns {ρ : Type} : List (Bool × Value ρ) → List (ColShape ρ)
+  | [] => []
+  | (hidden, x) :: r => (if hidden then [] else memberColumns x) ++ itemColumns r
+end
+
+/-- the columns an evaluated factor contributes to the matrix -/
+def columns {ρ : Type} : Value ρ → List (ColShape ρ)
+  | .array2 _ cols => cols.map .vec
+  | .frame _ cols => cols.map .vec
+  | .none => []
+  | x => memberColumns x
+
+/-- the cells of a column when exactly the rows at positions `K` remain -/
+def shapeRows {ρ : Type} (K : List Nat) : ColShape ρ → List (Cell ρ)
+  | .vec cells => rowsAt cells K
+  | .const c => List.replicate K.length c
+  | .bad => []
+
+/-- what `find_nulls` returns for the factor (nothing when it raises) -/
+def nullsOf {ρ : Type} (f : Factor ρ) : List Nat :=
+  match findNulls current f.value with
+  | .ok ns => ns
+  | .error _ => []
+
 /-- rows in which some evaluated factor of the part is null -/
-def partNulls {ρ : Type} (p : Part ρ) : List Nat := p.factors.flatMap (·.nulls)
+def partNulls {ρ : Type} (p : Part ρ) : List Nat := p.factors.flatMap nullsOf
 
 /-- rows in which some evaluated factor (of any part) is null -/
 def allNulls {ρ : Type} (parts : List (Part ρ)) : List Nat :=
-  (parts.flatMap (·.factors)).flatMap (·.nulls)
+  (parts.flatMap (·.factors)).flatMap nullsOf
 
 /-- rows the caller listed for dropping -/
 def callerRows : Option DropSet → List Nat
@@ -26,14 +208,15 @@ def callerRows : Option DropSet → List Nat
   | none => []
 
 /-- What one part of the output must be when exactly the rows at positions `K` remain: every
-factor contributes its cells at `K` (so output row `j` is input row `K[j]`), the intercept has
-one entry per remaining row, and pandas output carries the labels of the rows at `K`
-(a frame without row labels gets a fresh `RangeIndex`). -/
+column of every factor contributes its cells at `K` (so output row `j` is input row `K[j]`;
+constants fill the rows that remain), the intercept has one entry per remaining row, and pandas
+output carries the labels of the rows at `K` (a frame without row labels gets a fresh
+`RangeIndex`). -/
 def expectedMatrix {L ρ : Type} (labels : List L) (K : List Nat) (o : Output) (p : Part ρ) :
     Matrix L ρ :=
   { nrows := K.length
     intercept := if p.intercept then some K.length else none
-    cols := p.factors.map (fun f => rowsAt f.vals K)
+    cols := p.factors.map (fun f => (columns f.value).map (shapeRows K))
     index :=
       match o, p.mat with
       | .pandas, .pandas => .labels (rowsAt labels K)
@@ -41,11 +224,17 @@ def expectedMatrix {L ρ : Type} (labels : List L) (K : List Nat) (o : Output) (
       | .pandas, .arrow => .range K.length
       | _, _ => .none }
 
+/-- the cells of a column when all `n` rows remain -/
+def shapeAll {ρ : Type} (n : Nat) : ColShape ρ → List (Cell ρ)
+  | .vec cells => cells
+  | .const c => List.replicate n c
+  | .bad => []
+
 /-- the part with every input row in it -/
 def fullMatrix {L ρ : Type} (labels : List L) (n : Nat) (o : Output) (p : Part ρ) : Matrix L ρ :=
   { nrows := n
     intercept := if p.intercept then some n else none
-    cols := p.factors.map (·.vals)
+    cols := p.factors.map (fun f => (columns f.value).map (shapeAll n))
     index :=
       match o, p.mat with
       | .pandas, .pandas => .labels labels
@@ -53,9 +242,10 @@ def fullMatrix {L ρ : Type} (labels : List L) (n : Nat) (o : Output) (p : Part 
       | .pandas, .arrow => .range n
       | _, _ => .none }
 
-/-- well-formed input: every factor has one cell per row and `find_nulls` only names rows -/
+/-- well-formed input: every evaluated factor is made of columns with one cell per row and
+constants that are not null -/
 def WF {ρ : Type} (n : Nat) (parts : List (Part ρ)) : Prop :=
-  ∀ p ∈ parts, ∀ f ∈ p.factors, f.vals.length = n ∧ ∀ i ∈ f.nulls, i < n
+  ∀ p ∈ parts, ∀ f ∈ p.factors, FactorOK n f
 
 /-- the caller's argument is a set (no repeats) of row positions -/
 def CallerOK (n : Nat) : Option DropSet → Prop
